@@ -14,7 +14,8 @@ use std::sync::{Arc, Weak};
 use std::time::{Duration, Instant};
 use tokio::sync::mpsc;
 
-pub const CT_NAMES: [(&str, u8); 12] = [
+pub const CT_NAMES: [(&str, u8); 13] = [
+    ("TSN", 254),
     ("DATA", 0), ("INIT", 1), ("INITACK", 2), ("SACK", 3), ("HB", 4), ("HBACK", 5), ("ABORT", 6),
     ("COOKIEECHO", 10), ("COOKIEACK", 11), ("RECONFIG", 130), ("FWDTSN", 192), ("ANY", 255),
 ];
@@ -40,7 +41,7 @@ pub fn chunks_of(p: &[u8]) -> Vec<(u8, u8, Vec<u8>)> {
 }
 
 #[derive(Clone, Copy, Debug, PartialEq, Eq)]
-pub enum Action { Drop, Dup, Delay(u32), Late(u32) }
+pub enum Action { Drop, Dup, Delay(u32), Late(u32), DropN(u32) }
 
 #[derive(Clone, Debug, PartialEq, Eq)]
 pub struct Fault { pub side: usize, pub ctype: u8, pub ordinal: u32, pub action: Action }
@@ -48,13 +49,14 @@ pub struct Fault { pub side: usize, pub ctype: u8, pub ordinal: u32, pub action:
 impl Fault {
     pub fn text(&self) -> String {
         let a = match self.action { Action::Drop => "drop".to_string(), Action::Dup => "dup".into(),
-            Action::Delay(k) => format!("delay{k}"), Action::Late(k) => format!("late{k}") };
+            Action::Delay(k) => format!("delay{k}"), Action::Late(k) => format!("late{k}"), Action::DropN(k) => format!("dropn{k}") };
         format!("{}.{}.{}.{}", if self.side == 0 { "A" } else { "B" }, ct_name(self.ctype), self.ordinal, a)
     }
     pub fn parse(s: &str) -> Option<Fault> {
         let f: Vec<&str> = s.split('.').collect();
         if f.len() != 4 { return None; }
         let action = if f[3] == "drop" { Action::Drop } else if f[3] == "dup" { Action::Dup }
+            else if let Some(k) = f[3].strip_prefix("dropn") { Action::DropN(k.parse().ok()?) }
             else if let Some(k) = f[3].strip_prefix("delay") { Action::Delay(k.parse().ok()?) }
             else if let Some(k) = f[3].strip_prefix("late") { Action::Late(k.parse().ok()?) } else { return None; };
         Some(Fault { side: if f[0] == "A" { 0 } else { 1 }, ctype: ct_code(f[1])?, ordinal: f[2].parse().ok()?, action })
@@ -199,6 +201,10 @@ impl Dir {
 pub struct Link {
     pub faults: Vec<Fault>,
     pub used: Vec<bool>,
+    /// for `TSN` faults: how many more copies to drop
+    remaining: Vec<u32>,
+    /// initial TSN announced by each side
+    pub init_tsn: [Option<u32>; 2],
     pub dirs: [Dir; 2],
     /// every datagram put on the wire by either side, in emission order: (side, bytes)
     pub wire: Vec<(usize, Bytes)>,
@@ -207,15 +213,34 @@ pub struct Link {
 impl Link {
     pub fn new(faults: Vec<Fault>) -> Self {
         let n = faults.len();
-        Link { faults, used: vec![false; n], dirs: [Dir::new(), Dir::new()], wire: vec![] }
+        let remaining = faults.iter().map(|f| if let Action::DropN(k) = f.action { k } else { 0 }).collect();
+        Link { faults, used: vec![false; n], remaining, init_tsn: [None, None], dirs: [Dir::new(), Dir::new()], wire: vec![] }
     }
     pub fn exhausted(&self) -> bool { self.used.iter().all(|u| *u) && self.dirs.iter().all(|d| d.held.is_empty()) }
     /// a packet emitted by `side`; returns the packets to deliver to the peer now, in order
     pub fn forward(&mut self, side: usize, pkt: Bytes) -> Vec<Bytes> {
         self.wire.push((side, pkt.clone()));
-        let types: Vec<u8> = { let mut t: Vec<u8> = chunks_of(&pkt).iter().map(|c| c.0).collect(); t.dedup(); t };
+        let parsed = chunks_of(&pkt);
+        let types: Vec<u8> = { let mut t: Vec<u8> = parsed.iter().map(|c| c.0).collect(); t.dedup(); t };
+        for (t, _f, v) in &parsed {
+            if (*t == 1 || *t == 2) && v.len() >= 16 && self.init_tsn[side].is_none() {
+                self.init_tsn[side] = Some(u32::from_be_bytes([v[12], v[13], v[14], v[15]]));
+            }
+        }
         let mut action = None;
-        {
+        // TSN-addressed faults: drop the first n copies of the chunk `initial TSN + ordinal`
+        if let Some(t0) = self.init_tsn[side] {
+            for (i, f) in self.faults.iter().enumerate() {
+                if f.ctype == 254 && f.side == side && !self.used[i]
+                    && parsed.iter().any(|(t, _, v)| *t == 0 && v.len() >= 4 && u32::from_be_bytes([v[0], v[1], v[2], v[3]]) == t0.wrapping_add(f.ordinal)) {
+                    self.remaining[i] -= 1;
+                    if self.remaining[i] == 0 { self.used[i] = true; }
+                    action = Some(Action::Drop);
+                    break;
+                }
+            }
+        }
+        if action.is_none() {
             let d = &mut self.dirs[side];
             let mut seen = vec![];
             for t in types.iter().chain(std::iter::once(&255u8)) {
@@ -224,7 +249,7 @@ impl Link {
                 *d.counts.entry(*t).or_insert(0) += 1;
             }
             for (i, f) in self.faults.iter().enumerate() {
-                if !self.used[i] && f.side == side && (types.contains(&f.ctype) || f.ctype == 255)
+                if !self.used[i] && f.ctype != 254 && f.side == side && (types.contains(&f.ctype) || f.ctype == 255)
                     && d.counts.get(&f.ctype).copied().unwrap_or(0) == f.ordinal {
                     self.used[i] = true;
                     action = Some(f.action);
@@ -236,7 +261,7 @@ impl Link {
         let mut out = vec![];
         match action {
             None => out.push(pkt),
-            Some(Action::Drop) => {}
+            Some(Action::Drop) | Some(Action::DropN(_)) => {}
             Some(Action::Dup) => { out.push(pkt.clone()); out.push(pkt); }
             Some(Action::Delay(k)) => d.held.push(Held { pkt, countdown: k + 1 }),
             Some(Action::Late(k)) => { out.push(pkt.clone()); d.held.push(Held { pkt, countdown: k + 1 }); }
